@@ -219,7 +219,15 @@ func c15Case(o *Out, r *Rng, toolBin, toolDir string) {
 	// hard descriptions are injected through the Go API after loading (the property quantifies over
 	// accepted schemas, however they came to be): a description is a plain Go string
 	root := newLoadRoot()
-	if err := safeParse(root, set.sdl(true)); err != nil {
+	authored := set.sdl(true)
+	if r.Chance(35) {
+		// descriptions written in the quoted form with escapes, not in the form the reader normalises block strings
+		// to (indentation, blank lines, padding): whatever the root keeps of them must survive print and re-parse
+		d := Pick(r, []string{`"Usage:\n\n    query { a }\n\nEnd."`, `" the \"a\" field "`, `"first\n  - indented"`, `"tab\there\n\n\nthree"`, `"  padded  "`})
+		authored += d + "\ntype DescExtra { " + d + " x: Int }\n"
+		o.Count("quoted-description-with-escapes")
+	}
+	if err := safeParse(root, authored); err != nil {
 		o.Count("generated-schema-rejected")
 		return
 	}
